@@ -308,3 +308,21 @@ def run(ck, prog):
     _run_pre_dimension(ck, prog)
     from sa import dimension
     dimension.run_rule(ck, prog, set(DIMENSION_FILES))
+
+
+# ------------------------------------------------------------------ Gaussian NB: no absolute threshold on the statistics
+_run_pre_e4 = run
+
+
+def run(ck, prog):
+    _run_pre_e4(ck, prog)
+    # the reported statistics are the ones prediction uses: no element-derived quantity (mean, variance, feature value) is
+    # compared with / floored at a non-zero machine constant anywhere in the Gaussian model (expected count on this tree: 0
+    # comparisons; positive controls: seeded/C11-r4-1)
+    from props.C01 import run_e4
+    n, _ = run_e4(ck, prog, r"naive_bayes::gaussian::", ["naive_bayes::gaussian::"], floor=0)
+    ck.extra["gaussian_t_comparisons"] = n
+
+
+EXPLANATION += (" Gaussian NB (E4): no mean/variance/feature-derived quantity is compared with, or floored at (max/min), a non-zero "
+                "absolute constant - a variance floor makes predict disagree with the reported statistics for small-scale data.")
